@@ -379,6 +379,10 @@ func limitSpecs() []string {
 	add("longif", 7000, 9000)
 	add("longloop", 7000, 9000)
 	add("longmain", 9000)
+	// error-count limits: the parser stops after 10 errors (bailout); scanner errors are counted too
+	for _, k := range []string{"nulbytes", "badutf8", "nul-in-comment", "nul-after-token", "bad-escapes", "stray-parens", "nul-in-module-first-token"} {
+		add(k, 9, 10, 11, 12, 13, 100)
+	}
 	add("longline", 100000)
 	add("manylines", 100000)
 	return out
@@ -530,6 +534,28 @@ func genLimit(spec string) ([]byte, error) {
 		sb.WriteString("x := 0\nc := true\nif c {\n")
 		rep("x = x + 1\n", n)
 		sb.WriteString("}\nfor i := 0; i < 3; i++ {\nif i == 1 { continue }\nx += 100\n}\n")
+	case "nulbytes":
+		rep("\x00", n)
+	case "badutf8":
+		rep("\xff", n)
+	case "nul-in-comment":
+		sb.WriteString("/* ")
+		rep("\x00", n)
+		sb.WriteString(" */ a := 1\n")
+	case "nul-after-token":
+		sb.WriteString("a := 1\n")
+		rep("\x00", n)
+	case "bad-escapes":
+		sb.WriteString("\"")
+		rep("\\q", n)
+		sb.WriteString("\"\n")
+	case "stray-parens":
+		rep(") ", n)
+	case "nul-in-module-first-token":
+		// the same bytes inside a longer first token: an identifier interrupted by NULs
+		sb.WriteString("a")
+		rep("\x00", n)
+		sb.WriteString("b := 1\n")
 	case "manylines":
 		rep("\n", n)
 		sb.WriteString("x := )")
